@@ -11,7 +11,7 @@ open PgVerif.Spec.Wal (encRecHeader encBody encRecord pad8 Trailer pageHdrBytes 
 /-! ## The operational layout (Spec/WalLayout.lean): every page it emits is parsed back to what it placed -/
 
 /-- what the tool reports for a placed record, however it was placed -/
-def placedM (p : Placed) : Record := recM p.lsn p.record (viewsM none p.record.blocks)
+def placedM (magic : Nat) (p : Placed) : Record := recM magic p.lsn p.record (viewsM none p.record.blocks)
 
 theorem zeros_isPadding (n : Nat) : ((zeros n).take 8).all (· == 0) = true := by
   simp [zeros, List.take_replicate]
@@ -21,17 +21,17 @@ def CarryOK (carry : Bytes) : Trailer → Prop
   | .cut r n => carry = (encRecord r).drop n
   | .zeros _ => carry = []
 
-structure FillOK (addr p : Nat) (f : PageFill) : Prop where
+structure FillOK (magic addr p : Nat) (f : PageFill) : Prop where
   len : ((f.whole.flatMap fun r => pad8 (encRecord r)) ++ f.trailer.bytes).length = 8192 - p
-  tr : f.trailer.WF
-  whole : ∀ r ∈ f.whole, r.WF
-  rest : ∀ r ∈ f.rest, r.WF
+  tr : f.trailer.WF (decide (magic < 0xD110))
+  whole : ∀ r ∈ f.whole, r.WF (decide (magic < 0xD110))
+  rest : ∀ r ∈ f.rest, r.WF (decide (magic < 0xD110))
   carry : f.carry.length ≤ 16000
   cont : CarryOK f.carry f.trailer
-  recs : addr + 8192 ≤ 2 ^ 64 → loopRecs addr p f.whole f.trailer = f.placed.map placedM
+  recs : addr + 8192 ≤ 2 ^ 64 → loopRecs magic addr p f.whole f.trailer = f.placed.map (placedM magic)
 
-theorem fillPage_ok (addr : Nat) (rs : List Spec.Wal.WalRecord) (hrs : ∀ r ∈ rs, r.WF) (p : Nat) (hp : p ≤ 8192)
-    (hp8 : p % 8 = 0) : FillOK addr p (fillPage addr p rs) := by
+theorem fillPage_ok (magic addr : Nat) (rs : List Spec.Wal.WalRecord) (hrs : ∀ r ∈ rs, r.WF (decide (magic < 0xD110)))
+    (p : Nat) (hp : p ≤ 8192) (hp8 : p % 8 = 0) : FillOK magic addr p (fillPage addr p rs) := by
   induction rs generalizing p with
   | nil =>
     unfold fillPage
@@ -73,7 +73,7 @@ theorem fillPage_ok (addr : Nat) (rs : List Spec.Wal.WalRecord) (hrs : ∀ r ∈
         · rw [if_neg h3]; rfl
 
 /-- when the following pages carry the carry of a filled page, they complete its cut record -/
-theorem contOK_of_fill (addr p : Nat) (f : PageFill) (hf : FillOK addr p f) (fol : Bytes)
+theorem contOK_of_fill (magic addr p : Nat) (f : PageFill) (hf : FillOK magic addr p f) (fol : Bytes)
     (h : f.carry ≠ [] → continuationData fol f.carry.length = .ok (some f.carry)) : ContOK fol f.trailer := by
   have hc := hf.cont
   have ht := hf.tr
@@ -117,10 +117,10 @@ structure SegOK (s : Spec.Wal.WalSegment) : Prop where
 
 theorem pageRecs_fill (s : Spec.Wal.WalSegment) (hs : SegOK s) (k : Nat) (carry : Bytes) (hc : carry.length < 2 ^ 32)
     (haddr : s.startAddr + 8192 * k + 8192 ≤ 2 ^ 64)
-    (f : PageFill) (hf : FillOK (s.startAddr + 8192 * k) (hdrSize k + Spec.Wal.align8 carry.length) f) (fol : Bytes)
+    (f : PageFill) (hf : FillOK s.magic (s.startAddr + 8192 * k) (hdrSize k + Spec.Wal.align8 carry.length) f) (fol : Bytes)
     (hfol : f.carry ≠ [] → continuationData fol f.carry.length = .ok (some f.carry)) :
     pageRecs (pageHeader s k carry.length ++ pad8 carry ++
-      ((f.whole.flatMap fun r => pad8 (encRecord r)) ++ f.trailer.bytes)) fol = f.placed.map placedM := by
+      ((f.whole.flatMap fun r => pad8 (encRecord r)) ++ f.trailer.bytes)) fol = f.placed.map (placedM s.magic) := by
   obtain ⟨b1, b2, b3⟩ := pageInfo_bits s k carry.length
   have hx := longExt_length s k
   unfold pageRecs pageHeader
@@ -132,7 +132,7 @@ theorem pageRecs_fill (s : Spec.Wal.WalSegment) (hs : SegOK s) (k : Nat) (carry 
         · simp [h0]
         · have : carry.length = 0 := by omega
           simp [this, Spec.Wal.align8])
-    hf.whole hf.tr (contOK_of_fill _ _ f hf fol hfol)]
+    hf.whole hf.tr (contOK_of_fill _ _ _ f hf fol hfol)]
   simp only []
   rw [← hf.recs (by omega), pad8_length, hx]
   congr 1
@@ -216,7 +216,7 @@ def recsLen (rs : List Spec.Wal.WalRecord) : Nat := (rs.map fun r => Spec.Wal.al
 
 /-- the pages laid out after a page that ended inside a record give that record's remaining bytes back -/
 theorem contLoop_layout (s : Spec.Wal.WalSegment) (hs : SegOK s) (n k : Nat) (carry : Bytes)
-    (rs : List Spec.Wal.WalRecord) (hc : carry.length < 2 ^ 32) (hne : carry ≠ []) (hrs : ∀ r ∈ rs, r.WF)
+    (rs : List Spec.Wal.WalRecord) (hc : carry.length < 2 ^ 32) (hne : carry ≠ []) (hrs : ∀ r ∈ rs, r.WF (decide (s.magic < 0xD110)))
     (hfuel : (Spec.Wal.align8 carry.length + recsLen rs) / 8 < n)
     (hfit : s.startAddr + 8192 * k + (layoutPages s n k carry rs).bytes.length ≤ 2 ^ 64) (tail : Bytes)
     (fuel : Nat) (hf : carry.length ≤ fuel) :
@@ -254,7 +254,7 @@ theorem contLoop_layout (s : Spec.Wal.WalSegment) (hs : SegOK s) (n k : Nat) (ca
         simp only [ok_bind, pure_eq_ok]
         rw [List.take_take, Nat.min_self, List.take_append_drop]
       · rw [if_neg hcap] at hfit ⊢
-        have hfp := fillPage_ok (s.startAddr + 8192 * k) rs hrs (hdrSize k + Spec.Wal.align8 carry.length) (by omega)
+        have hfp := fillPage_ok s.magic (s.startAddr + 8192 * k) rs hrs (hdrSize k + Spec.Wal.align8 carry.length) (by omega)
           (by simp only [Spec.Wal.align8]; omega)
         have hplen : (pageHeader s k carry.length ++ (pad8 carry ++
             (((fillPage (s.startAddr + 8192 * k) (hdrSize k + Spec.Wal.align8 carry.length) rs).whole.flatMap fun r => pad8 (encRecord r)) ++
@@ -284,7 +284,7 @@ theorem contLoop_layout (s : Spec.Wal.WalSegment) (hs : SegOK s) (n k : Nat) (ca
           exact key _
 
 theorem continuationData_layout (s : Spec.Wal.WalSegment) (hs : SegOK s) (n k : Nat) (carry : Bytes)
-    (rs : List Spec.Wal.WalRecord) (hc : carry.length < 2 ^ 32) (hne : carry ≠ []) (hrs : ∀ r ∈ rs, r.WF)
+    (rs : List Spec.Wal.WalRecord) (hc : carry.length < 2 ^ 32) (hne : carry ≠ []) (hrs : ∀ r ∈ rs, r.WF (decide (s.magic < 0xD110)))
     (hfuel : (Spec.Wal.align8 carry.length + recsLen rs) / 8 < n)
     (hfit : s.startAddr + 8192 * k + (layoutPages s n k carry rs).bytes.length ≤ 2 ^ 64) (tail : Bytes) :
     continuationData ((layoutPages s n k carry rs).bytes ++ tail) carry.length = .ok (some carry) := by
@@ -328,11 +328,11 @@ theorem fillPage_carry_fuel (addr : Nat) (rs : List Spec.Wal.WalRecord) (p : Nat
         simp only [hcl, recsLen, List.map_cons, List.sum_cons, Spec.Wal.align8]; omega
 
 theorem layoutPages_ok (s : Spec.Wal.WalSegment) (hs : SegOK s) (n : Nat) (k : Nat) (carry : Bytes)
-    (rs : List Spec.Wal.WalRecord) (hc : carry.length < 2 ^ 32) (hrs : ∀ r ∈ rs, r.WF)
+    (rs : List Spec.Wal.WalRecord) (hc : carry.length < 2 ^ 32) (hrs : ∀ r ∈ rs, r.WF (decide (s.magic < 0xD110)))
     (hfuel : (Spec.Wal.align8 carry.length + recsLen rs) / 8 < n)
     (hfit : s.startAddr + 8192 * k + (layoutPages s n k carry rs).bytes.length ≤ 2 ^ 64) (tail : Bytes) :
     fileRecs ((layoutPages s n k carry rs).bytes ++ tail) =
-      (layoutPages s n k carry rs).placed.map placedM ++ fileRecs tail := by
+      (layoutPages s n k carry rs).placed.map (placedM s.magic) ++ fileRecs tail := by
   induction n generalizing k carry rs with
   | zero => omega
   | succ n ih =>
@@ -353,7 +353,7 @@ theorem layoutPages_ok (s : Spec.Wal.WalSegment) (hs : SegOK s) (n : Nat) (k : N
         (by rw [List.length_drop]; simp only [Spec.Wal.align8] at hcap hfuel ⊢; omega)
         (by rw [mul_succ']; omega)
     · rw [if_neg hcap] at hfit ⊢
-      have hf := fillPage_ok (s.startAddr + 8192 * k) rs hrs (hdrSize k + Spec.Wal.align8 carry.length) (by omega)
+      have hf := fillPage_ok s.magic (s.startAddr + 8192 * k) rs hrs (hdrSize k + Spec.Wal.align8 carry.length) (by omega)
         (by simp only [Spec.Wal.align8]; omega)
       have hcf := fillPage_carry_fuel (s.startAddr + 8192 * k) rs (hdrSize k + Spec.Wal.align8 carry.length) (by omega)
         (by simp only [Spec.Wal.align8]; omega)
@@ -405,7 +405,7 @@ theorem fileRecs_zeros (m : Nat) : fileRecs (zeros m) = [] := pagesPure_zeros m 
 
 /-- a layout of at least one page is at least one page long -/
 theorem layoutPages_length (s : Spec.Wal.WalSegment) (n k : Nat) (carry : Bytes) (rs : List Spec.Wal.WalRecord)
-    (hrs : ∀ r ∈ rs, r.WF) : 8192 ≤ (layoutPages s (n + 1) k carry rs).bytes.length := by
+    (hrs : ∀ r ∈ rs, r.WF (decide (s.magic < 0xD110))) : 8192 ≤ (layoutPages s (n + 1) k carry rs).bytes.length := by
   have hh := hdr_length s k carry.length
   have hk : hdrSize k = 24 ∨ hdrSize k = 40 := by unfold hdrSize; by_cases h0 : k = 0 <;> simp [h0]
   unfold layoutPages
@@ -415,7 +415,7 @@ theorem layoutPages_length (s : Spec.Wal.WalSegment) (n k : Nat) (carry : Bytes)
     simp only [List.length_append, hh, List.length_take]
     simp only [Spec.Wal.align8] at hcap; omega
   · rw [if_neg hcap]
-    have hf := fillPage_ok (s.startAddr + 8192 * k) rs hrs (hdrSize k + Spec.Wal.align8 carry.length) (by omega)
+    have hf := fillPage_ok s.magic (s.startAddr + 8192 * k) rs hrs (hdrSize k + Spec.Wal.align8 carry.length) (by omega)
       (by simp only [Spec.Wal.align8]; omega)
     have hl := hf.len
     split <;> simp only [List.length_append, hh, pad8_length] at hl ⊢ <;> omega
@@ -424,25 +424,41 @@ theorem layoutPages_length (s : Spec.Wal.WalSegment) (n k : Nat) (carry : Bytes)
 def viewOfRecord (r : Record) : Spec.Wal.RecView :=
   ⟨r.lsn, r.totalLen, r.xid, r.prev, r.info, r.rmid, r.crc, r.blocks.map viewOfM⟩
 
-theorem placedM_view (p : Placed) : viewOfRecord (placedM p) = p.view := by
+theorem placedM_view (magic : Nat) (p : Placed) : viewOfRecord (placedM magic p) = p.view := by
   simp only [placedM, Placed.view, viewOfRecord, recM, Spec.Wal.recView]
   rw [viewsM_views]; rfl
 
-theorem placedM_names (p : Placed) :
-    (placedM p).rmName = rmgrName (placedM p).rmid ∧ (placedM p).operation = operationName (placedM p).rmid (placedM p).info :=
+theorem placedM_names (magic : Nat) (p : Placed) :
+    (placedM magic p).rmName = rmgrName (placedM magic p).rmid ∧
+    (placedM magic p).operation = operationNameFor (placedM magic p).rmid (placedM magic p).info magic :=
   ⟨rfl, rfl⟩
 
-theorem map_map_view (ps : List Placed) : (ps.map placedM).map viewOfRecord = ps.map Placed.view := by
+theorem map_map_view (magic : Nat) (ps : List Placed) : (ps.map (placedM magic)).map viewOfRecord = ps.map Placed.view := by
   rw [List.map_map]
   apply List.map_congr_left
   intro p _
-  exact placedM_view p
+  exact placedM_view magic p
+
+/-- the tool accepts exactly PostgreSQL's page magics (fixes/wal/06) -/
+theorem isValidMagic_iff (m : Nat) : isValidMagic m = true ↔ m ∈ Spec.Wal.pageMagics := by
+  simp [isValidMagic, Spec.Wal.pageMagics, Spec.Wal.pageMagicTable]
+  omega
+
+/-- on PostgreSQL's page magics the tool's version test `magic < WAL_MAGIC_15` is "written by PostgreSQL ≤ 14" -/
+theorem pre15_eq (m : Nat) (h : m ∈ Spec.Wal.pageMagics) : Spec.Wal.pre15 m = decide (m < 0xD110) := by
+  simp only [Spec.Wal.pageMagics, Spec.Wal.pageMagicTable, List.map_cons, List.map_nil, List.mem_cons, List.not_mem_nil, or_false] at h
+  rcases h with h | h | h | h | h <;> subst h <;> decide
+
+/-- the version label the tool derives from a page magic is the version that writes that magic -/
+theorem version_label : ∀ vm ∈ Spec.Wal.pageMagicTable, pgVersionFromMagic vm.2 = toString vm.1 := by decide
 
 /-- the segment theorem on the model side -/
-theorem segment_records (s : Spec.Wal.WalSegment) (hs : s.WF) (hv : isValidMagic s.magic = true)
+theorem segment_records (s : Spec.Wal.WalSegment) (hs : s.WF) (hmem : s.magic ∈ Spec.Wal.pageMagics)
     (hfit : s.startAddr + s.layout.bytes.length ≤ 2 ^ 64) :
-    parseWALFile (Spec.Wal.encSegmentOp s) = .ok (some (s.layout.placed.map placedM)) := by
+    parseWALFile (Spec.Wal.encSegmentOp s) = .ok (some (s.layout.placed.map (placedM s.magic))) := by
+  have hv := (isValidMagic_iff s.magic).mpr hmem
   obtain ⟨hm, _, ht, _, _, _, _, _, _, hpre, hrs⟩ := hs
+  rw [pre15_eq s.magic hmem] at hrs
   rw [parseWALFile_eq]
   have hlen := layoutPages_length s (s.streamLen / 8) 0 s.pre s.records hrs
   rw [if_neg (by
